@@ -354,4 +354,88 @@ def importRun (F : File) (cfg : Cfg) (st : Stores) : Option Err × Run :=
 def importStores (F : File) (cfg : Cfg) (st : Stores) : Option Err × Stores :=
   ((importRun F cfg st).1, (importRun F cfg st).2.st)
 
+/-! ### an import source that starts failing while the importer is at work
+
+`fileHeaderImportSource.GetHeader` reads its file afresh on every call; a file
+that has become shorter than its mapping, or a failing disk, makes the read of
+every header from some index on fail (the error wraps `io.EOF`,
+`io.ErrUnexpectedEOF` or an errno).  The fault is armed by the number of context
+polls made, which names every moment of the run (`Run.np`): the `j`-th iteration
+of the write loop is poll `2 * valBatches + j`.  What the write loop can read
+from then on is the file cut at the failing index — `readBatch` already reports
+a read that leaves the body as an error, never as the end of the data. -/
+structure ReadFault where
+  block : Bool        -- the block-header file (else: the filter-header file)
+  poll  : Nat         -- armed once more than `poll` polls were made
+  idx   : Nat         -- first unreadable file index
+deriving Repr, DecidableEq
+
+/-- the file as the importer can read it after `np` polls -/
+def File.under (F : File) (rf : Option ReadFault) (np : Nat) : File :=
+  match rf with
+  | none => F
+  | some f =>
+    if f.poll < np then
+      (if f.block then { F with blocks := F.blocks.take f.idx } else { F with filters := F.filters.take f.idx })
+    else F
+
+def appendLoopRF (F : File) (cfg : Cfg) (rf : Option ReadFault) (srcEnd : Nat) (mode : Mode) :
+    Nat → Nat → Run → Option Err × Run
+  | 0, _, r => (some .fuel, r)
+  | fuel + 1, batchStart, r =>
+    if cancelled cfg r.np then (some .cancel, r)
+    else
+      match processBatch (F.under rf (r.np + 1)) cfg srcEnd mode batchStart { r with np := r.np + 1 } with
+      | .eof => (none, { r with np := r.np + 1 })
+      | .err e r' => (some e, r')
+      | .next batchEnd r' => appendLoopRF F cfg rf srcEnd mode fuel (batchEnd + 1) r'
+
+def appendNewRF (F : File) (cfg : Cfg) (rf : Option ReadFault) (startH endH : Nat) (mode : Mode) (r : Run) :
+    Option Err × Run :=
+  appendLoopRF F cfg rf (endH - F.bstart) mode (endH + 2) startH r
+
+/-- `processRegions` with a failing source (the regions come from the metadata
+read at `Open`, which is memoised: they are those of the whole file) -/
+def processRegionsRF (F : File) (cfg : Cfg) (rf : Option ReadFault) (b f : Nat) (r : Run) : Option Err × Run :=
+  let (d, n) := regions F b f
+  let (e1, r1) :=
+    if d.exists then
+      if !verifyAt F r.st d.verify d.stop then (some Err.mismatch, r)
+      else appendNewRF F cfg rf d.start d.stop d.mode r
+    else (none, r)
+  match e1 with
+  | some e => (some e, r1)
+  | none =>
+    if n.exists then appendNewRF F cfg rf n.start n.stop n.mode r1
+    else (none, r1)
+
+/-- `headersImport.Import` with a source that fails from the write phase on
+(`rf.poll ≥ 2 * valBatches`: validation has read the whole file) -/
+def importRunRF (F : File) (cfg : Cfg) (rf : Option ReadFault) (st : Stores) : Option Err × Run :=
+  let r : Run := { st := st }
+  match preChecks F with
+  | some e => (some e, r)
+  | none =>
+    match continuity F st with
+    | some e => (some e, r)
+    | none =>
+      if !validateBlocks (validatedBody F cfg) cfg.bs then (some .invalid, r)
+      else
+        match bChainTip st, fChainTip st with
+        | some b, some f => processRegionsRF F cfg rf b f { r with np := 2 * valBatches F cfg }
+        | _, _ => (some .tip, r)
+
+/-- the write loop as it would be if ANY read failure of a batch were taken for
+the end of the data (what `errors.Is(err, io.EOF)` does to a wrapped short read):
+kept to show what the exact sentinel comparison is needed for -/
+def appendLoopLax (F : File) (cfg : Cfg) (rf : Option ReadFault) (srcEnd : Nat) (mode : Mode) :
+    Nat → Nat → Run → Option Err × Run
+  | 0, _, r => (some .fuel, r)
+  | fuel + 1, batchStart, r =>
+    match processBatch (F.under rf (r.np + 1)) cfg srcEnd mode batchStart { r with np := r.np + 1 } with
+    | .eof => (none, { r with np := r.np + 1 })
+    | .err .read r' => (none, r')
+    | .err e r' => (some e, r')
+    | .next batchEnd r' => appendLoopLax F cfg rf srcEnd mode fuel (batchEnd + 1) r'
+
 end Neutrino.Import
